@@ -1,9 +1,12 @@
 #!/bin/sh
-# evaluate every sub-agent seed against its own property's check; results to /tmp/sa/results/<ID>-<mut>.json
-mkdir -p /tmp/sa/results
-for p in "$@"; do
-  for m in mut1 mut2; do
-    [ -f /tmp/sa/$p/out/$m/patch.diff ] || continue
-    timeout 3000 /verif/tools/seed_eval.py /tmp/sa/$p/out/$m $p > /tmp/sa/results/$p-$m.json 2>/tmp/sa/results/$p-$m.err
-  done
+# re-evaluate every stored seed (seeded/<name>/patch.diff + demo.py) against /repo HEAD and the current checks;
+# results to /tmp/seedres/<name>.json ; then tools/seed_refresh.py folds them into the meta.json files
+mkdir -p /tmp/seedres
+cd "$(dirname "$0")/.."
+for d in seeded/*/; do
+  n=$(basename $d); p=$(python3 -c "import json;print(json.load(open('$d/meta.json'))['property'])")
+  extra=$(python3 -c "import json;m=json.load(open('$d/meta.json'));print(','.join(sorted(set(m.get('caught_by',[]))-{m['property']})))")
+  ids=$p; [ -n "$extra" ] && ids="$p,$extra"
+  timeout 3000 tools/seed_eval.py $d $ids > /tmp/seedres/$n.json 2>/dev/null
 done
+echo finished > /tmp/seedres/DONE
